@@ -891,6 +891,79 @@ def make_supply(**kw):
     return SupplyHarness(**kw)
 
 
+# ---------------------------------------------------------------------------- L5 blocks of files that are empty by default
+EMPTY_LIB = """
+library: geom
+cxx_header: geom.hpp
+options:
+  wrap_python: false
+  wrap_lua: false
+  show_splicer_comments: true
+declarations:
+- decl: class Marker
+- decl: namespace tools
+  declarations:
+  - decl: class Probe
+- decl: int count(int n)
+"""
+EMPTY_BLOCKS = ["class.Marker.C_definitions", "class.Marker.CXX_definitions",
+                "namespace.tools.class.Probe.C_definitions", "namespace.tools.class.Probe.CXX_definitions"]
+
+
+class EmptyFileHarness(object):
+    """A class without wrapped members has no implementation file by default; user code supplied for one of that
+    file's blocks (engine-chosen, one symbolic line) must still come out between that block's markers."""
+
+    def __init__(self, n=2, twin=False):
+        self.n, self.twin = n, twin
+
+    def run(self, e):
+        self.zs = [[z3.Int("c0_%d" % k) for k in range(self.n)]]
+        e.assume(domain(self.zs))
+        self.user = [SymStr(e, [SymChar(e, z) for z in self.zs[0]])]
+        v = z3.Int("block")
+        e.assume(z3.And(v >= 0, v < len(EMPTY_BLOCKS)))
+        self.block = EMPTY_BLOCKS[e.choose(v)]
+        return pipeline.run(pipeline.load_yaml(EMPTY_LIB), splicers={"c": nest({self.block: self.user})})
+
+    def witness(self, m, what):
+        body = ["".join(chr(m.eval(z, model_completion=True).as_long()) for z in zs) for zs in self.zs]
+        return {"level": "empty-file", "block": self.block, "user_lines": body, "what": what}
+
+    def judge(self, e, kind, value):
+        cls = "empty-file"
+        if kind == "exc":
+            return {"cls": cls, "violation": self.witness(e.model(), "exception %s: %s" % (type(value).__name__, str(value)[:200])), "vkey": "empty:exc"}
+        J = Judge(e)
+        found = None
+        for f, p in sorted(value.files.items()):
+            if group_of(f) != "c":
+                continue
+            blocks, err = find_blocks(split_lines(flatten(p)), comment_of(f))
+            if err:
+                J.valid(False, "%s: %s" % (f, err))
+                break
+            if self.block in blocks:
+                found = blocks[self.block]
+        if not J.fail:
+            if not found:
+                J.valid(False, "user code for block %s is not in any generated file (the file that holds it was not written)" % self.block)
+            elif len(found) != 1:
+                J.valid(False, "block %s occurs %d times" % (self.block, len(found)))
+            else:
+                block_equiv(J, [chars_of(u) for u in self.user], found[0], "block %s" % self.block)
+        if self.twin and not J.fail:
+            J.valid(False, "reachability twin")
+        if J.fail:
+            what, m = J.fail
+            return {"cls": cls, "violation": self.witness(m, what), "vkey": "empty:" + re.sub(r"\d+", "N", what)[:70]}
+        return {"cls": cls, "sample": self.witness(e.model(), None)}
+
+
+def make_empty(**kw):
+    return EmptyFileHarness(**kw)
+
+
 def merge_missing(dst, src, path=""):
     """merge src into dst; returns the first block name present in both (or None)"""
     dup = None
@@ -921,6 +994,23 @@ def confirm(w):
             return out
         return run
 
+    if w["level"] == "empty-file":
+        h = EmptyFileHarness(len(lines[0]))
+        res = {}
+
+        def run_e(e):
+            for k, ch in enumerate(lines[0]):
+                e.assume(z3.Int("c0_%d" % k) == ord(ch))
+            e.assume(z3.Int("block") == EMPTY_BLOCKS.index(w["block"]))
+            return h.run(e)
+        saved = globals()["domain"]
+        globals()["domain"] = lambda zs: True
+        try:
+            Engine().explore(run_e, lambda e, kind, value: res.__setitem__("j", h.judge(e, kind, value)))
+        finally:
+            globals()["domain"] = saved
+        v = res.get("j", {}).get("violation")
+        return (v["what"] if v else None), None
     if w["level"] == "yaml-splicer-file":
         h = SupplyHarness(w["library"], w["group"])
         res = {}
@@ -1073,6 +1163,8 @@ def main():
         for n in ((1, 2) if tier == "quick" else (1, 2, 3)):
             specs.append(("harness.C12", "make_decl", dict(libname=lib, n=n)))
             labels.append(("declaration", n, lib))
+    specs.append(("harness.C12", "make_empty", dict(n=2)))
+    labels.append(("empty-file", 2, "geom"))
     for g in ("c", "f", "py", "lua"):
         specs.append(("harness.C12", "make_supply", dict(libname="geom", group=g)))
         labels.append(("yaml-splicer-file", g, "geom"))
